@@ -64,7 +64,7 @@ fn tdec_core(name: &str, b: &[u8]) -> Option<Value> {
         "tup16" => (u8, u8, u8, u8, u8, u8, u8, u8, u8, u8, u8, u8, u8, u8, u8, u8),
         "tup5" => (u8, i16, u8, i16, u8), "tup7" => (u8, i16, u8, i16, u8, i16, u8), "tup12" => (u8, i16, u8, i16, u8, i16, u8, i16, u8, i16, u8, i16),
         "arr2tup" => [(u8, bool); 2],
-        "arr0u8" => [u8; 0], "arr3i32" => [i32; 3], "arr16u8" => [u8; 16], "arr32u8" => [u8; 32],
+        "arr0u8" => [u8; 0], "arr3i32" => [i32; 3], "arr23u16" => [u16; 23], "arr24bool" => [bool; 24], "arr25i8" => [i8; 25], "arr16u8" => [u8; 16], "arr32u8" => [u8; 32],
         "duration" => core::time::Duration,
         "tag" => Tag, "tagged7u8" => Tagged<7, u8>, "optresult" => Option<Result<u8, bool>>,
     )
